@@ -517,7 +517,7 @@ def sweep_chunk(args):
         for e, mod, kind in specs:
             if kind == 'pow2*':
                 # every special packed integer of the pair, uncompressed and in one compressed shape each
-                cases.extend(g.width_cases(rng, e, mod, layouts=['u', rng.choice(F.COMP_LAYOUTS)], every_delta=True))
+                cases.extend(g.width_cases(rng, e, mod, layouts=['u', rng.choice(F.COMP_LAYOUTS)]))
                 continue
             for layout in ('u', rng.choice(LAYOUTS[2:])):
                 c = g.numeric_case(rng, e, mod, kind, layout)
